@@ -530,6 +530,97 @@ var c08RetainRe = regexp.MustCompile(`(?ms)^[ \t]*retain[ \t]*\(\n.*?^[ \t]*\)[ 
 var c08ParamRe = regexp.MustCompile(`(?m)^[ \t]*(?:in|out)[ \t]+[^\n]*,\n`)
 var c08DeclRe = regexp.MustCompile(`(?ms)^(?:stage|pipeline|struct) [^\n]*\(\n.*?^\)[^\n]*\n(?:\{\n.*?^\}\n)?`)
 
+// "in TYPE name," / "out TYPE name," / struct member "TYPE name," lines: group 1 = the base type name
+var c08TypedMemberRe = regexp.MustCompile(`(?m)^\s+(?:in\s+|out\s+)?([A-Za-z_][A-Za-z0-9_]*)(?:<[^>]*>)?(?:\[\])*\s+[a-z_][A-Za-z0-9_]*,\s*$`)
+
+const c08StructLiteralProgram = `filetype txt;
+
+struct INNER(
+    int    a,
+    string b,
+    txt    t,
+)
+
+struct OUTER(
+    INNER      i,
+    INNER[]    l,
+    map<INNER> m,
+    float      f,
+)
+
+stage MAKE(
+    in  int   q,
+    out INNER made,
+    out float score,
+    src comp  "make",
+)
+
+stage USE(
+    in  OUTER   o,
+    in  INNER[] xs,
+    in  MAKE    whole,
+    out int     r,
+    src comp    "use",
+)
+
+pipeline P(
+    in  int   q,
+    out int   r,
+    out INNER made,
+)
+{
+    call MAKE(
+        q = self.q,
+    )
+
+    call USE(
+        o     = {
+            f: 1.5,
+            i: {
+                a: 1,
+                b: "x",
+                t: null,
+            },
+            l: [
+                {
+                    a: 2,
+                    b: "y",
+                    t: null,
+                },
+            ],
+            m: {
+                "k": {
+                    a: 3,
+                    b: "z",
+                    t: null,
+                },
+            },
+        },
+        xs    = [
+            {
+                a: self.q,
+                b: "w",
+                t: null,
+            },
+            MAKE.made,
+        ],
+        whole = {
+            made:  MAKE.made,
+            score: 2.5,
+        },
+    )
+
+    return (
+        r    = USE.r,
+        made = MAKE.made,
+    )
+}
+
+call P(
+    q = 1,
+)
+`
+
 func c08StructMutate(r *hx.Rng, src string) string {
 	cut := func(re *regexp.Regexp) (string, bool) {
 		locs := re.FindAllStringIndex(src, -1)
@@ -540,7 +631,13 @@ func c08StructMutate(r *hx.Rng, src string) string {
 		return src[:l[0]] + src[l[1]:], true
 	}
 	for try := 0; try < 6; try++ {
-		switch r.Intn(7) {
+		switch r.Intn(9) {
+		case 7, 8: // misspell the type of one parameter or struct member (an undeclared type name)
+			locs := c08TypedMemberRe.FindAllStringSubmatchIndex(src, -1)
+			if len(locs) > 0 {
+				l := locs[r.Intn(len(locs))]
+				return src[:l[2]] + "undeclared_t" + src[l[3]:]
+			}
 		case 0: // delete one call statement
 			if m, ok := cut(c08CallStmRe); ok {
 				return m
@@ -855,6 +952,18 @@ func c08GenPrograms(tier string, r *hx.Rng) {
 		v := g.value(5)
 		emitV(v)
 		emitV(c08MutateProgram(r, v))
+	}
+	// every single type name of a program that binds nested struct literals
+	// inside a pipeline, misspelt one at a time (the later compile phases
+	// must cope with a type table that has an unknown entry)
+	emitM(c08StructLiteralProgram)
+	for _, l := range c08TypedMemberRe.FindAllStringSubmatchIndex(c08StructLiteralProgram, -1) {
+		emitM(c08StructLiteralProgram[:l[2]] + "undeclared_t" + c08StructLiteralProgram[l[3]:])
+	}
+	// a wildcard binding where there is nothing to take the values from
+	for _, w := range []string{"* = self", "* = S", "x = 1,\n    * = self", "* = self.x"} {
+		emitM("stage S(\n    in  int x,\n    out int y,\n    src comp \"x\",\n)\n\ncall S(\n    " + w + ",\n)\n")
+		emitM("stage S(\n    in  int x,\n    out int y,\n    src comp \"x\",\n)\n\npipeline P(\n    in  int x,\n    out int y,\n)\n{\n    call S(\n        " + w + ",\n    )\n\n    return (\n        y = S.y,\n    )\n}\n\ncall P(\n    " + w + ",\n)\n")
 	}
 	// repository fixtures, mutated
 	seeds := c08SeedFiles()
